@@ -322,6 +322,34 @@ Section C06.
     /\ ((exists h, hs = [h] /\ st' = st /\ r = h) \/ (exists b, st' = st ++ [b] /\ e_buf r = length st)).
   Proof. exact (e_cat_frame A junk_o junk_v). Qed.
 
+  (* MultiEmbeddingTensor.fillna_col at store level (multi_embedding_tensor.py:fillna_col writes through
+     the view values[:, offset[j]:offset[j+1]]): afterwards the object reads as the pure fillna_col of
+     what it read before -- also when the object is itself a row / column view of a larger storage *)
+  Theorem met_fillna_col_in_place : forall (st st' : list (list (list A))) h j v,
+    e_fill A is_na st h j v = Some st' ->
+    e_read A st' h = (t <- e_read A st h ;; met_fillna_col A is_na t j v).
+  Proof. exact (e_fill_read A is_na). Qed.
+
+  (* MultiEmbeddingTensor.cat / torch_frame.cat at store level, full form: no existing object changes;
+     the result is the element itself for a one-element list and an object on a NEW storage otherwise; and
+     it reads as the pure cat of what the arguments read (whatever views the arguments are) *)
+  Theorem met_cat_at_store_level : forall (st st' : list (list (list A))) hs d tf r,
+    e_cat A junk_o junk_v st hs d tf = Some (st', r) ->
+    (forall h0, e_buf h0 < length st -> e_read A st' h0 = e_read A st h0)
+    /\ ((exists h, hs = [h] /\ st' = st /\ r = h) \/ e_buf r = length st)
+    /\ e_read A st' r =
+       (ts <- mapM (e_read A st) hs ;;
+        if tf then x <- cat_tensor_data A junk_o junk_v (map TMet ts) d ;; as_met A x else met_cat A ts d).
+  Proof. exact (e_cat_spec A junk_o junk_v). Qed.
+
+  (* every MultiEmbeddingTensor object read from a store has a well-formed 2-D values tensor
+     (num_rows rows of the declared width), and cat preserves that *)
+  Theorem met_store_values_well_formed :
+    (forall (st : list (list (list A))) h t, e_read A st h = Some t ->
+       length (t2rows (evals t)) = er t /\ Forall (fun row => length row = t2w (evals t)) (t2rows (evals t)))
+    /\ (forall ts d x, Forall (met_ok A) ts -> met_cat A ts d = Some x -> met_ok A x).
+  Proof. exact (conj (e_read_ok A) (met_cat_ok A)). Qed.
+
   (* ------------------------------------------------------------------ *)
   (* 8. torch_frame.cat on tensor data: one element is returned as is, two or more
      containers go to the class method *)
@@ -379,6 +407,9 @@ Print Assumptions mnt_fillna_col_in_place.
 Print Assumptions met_fillna_col_writes_one_storage.
 Print Assumptions mnt_cat_does_not_modify_arguments.
 Print Assumptions met_cat_does_not_modify_arguments.
+Print Assumptions met_fillna_col_in_place.
+Print Assumptions met_cat_at_store_level.
+Print Assumptions met_store_values_well_formed.
 
 (* ---------------------------------------------------------------------- *)
 (* Non-vacuity: the hypotheses hold on concrete, non-trivial states, and the
@@ -451,3 +482,26 @@ Example ex_clone_hyp :
   exists st1 c, n_clone nat [[7; 1; 2; 3; 9]] {| n_nr := 1; n_nc := 2; n_offs := [0; 1; 3]; n_buf := 0; n_start := 1; n_len := 3 |}
                 = Some (st1, c) /\ n_buf c = 1.
 Proof. eexists. eexists. vm_compute. split; reflexivity. Qed.
+
+(* MultiEmbeddingTensor at store level: b = 3 rows x widths [2;1]; s = b[1:3] (row VIEW); c = s[:, 0] (column
+   VIEW of the view); c.fillna_col(0, 77) lands in b; k = cat([s, s], dim=1) is fresh and reads the written cells *)
+Definition ex_met_prog : list stmt :=
+  [PBase [[[Some 1%Z; Some 5%Z]; [Some 2%Z]]; [[Some 5%Z; Some 3%Z]; [Some 5%Z]]; [[Some 4%Z; Some 5%Z]; [Some 6%Z]]];
+   PSel 0 0 (ISlice (Some 1%Z) (Some 3%Z) None); PSel 1 1 (IInt 0%Z); PFill 2 0 (Some 77%Z);
+   PCat [1; 1] 1%Z false].
+Example ex_met_store :
+  e_observe (fun p => RaggedRun.payload_eqb p (Some 5%Z)) ex_met_prog =
+  Some [CCells 3 2 [[[Some 1%Z; Some 5%Z]; [Some 2%Z]]; [[Some 77%Z; Some 3%Z]; [Some 5%Z]]; [[Some 4%Z; Some 77%Z]; [Some 6%Z]]];
+        CCells 2 2 [[[Some 77%Z; Some 3%Z]; [Some 5%Z]]; [[Some 4%Z; Some 77%Z]; [Some 6%Z]]];
+        CCells 2 1 [[[Some 77%Z; Some 3%Z]]; [[Some 4%Z; Some 77%Z]]];
+        CCells 2 1 [[[Some 77%Z; Some 3%Z]]; [[Some 4%Z; Some 77%Z]]];
+        CCells 2 4 [[[Some 77%Z; Some 3%Z]; [Some 5%Z]; [Some 77%Z; Some 3%Z]; [Some 5%Z]];
+                    [[Some 4%Z; Some 77%Z]; [Some 6%Z]; [Some 4%Z; Some 77%Z]; [Some 6%Z]]]].
+Proof. vm_compute. reflexivity. Qed.
+
+(* the hypothesis of met_fillna_col_in_place holds on a column view inside a row view *)
+Example ex_met_fill_hyp :
+  exists st', e_fill nat (Nat.eqb 5) [[[1; 5; 2]; [5; 3; 5]; [4; 5; 6]]]
+                     {| e_nr := 2; e_nc := 1; e_offs := [0; 2]; e_buf := 0; e_r0 := 1; e_c0 := 0; e_w := 2 |} 0 77
+              = Some st' /\ st' = [[[1; 5; 2]; [77; 3; 5]; [4; 77; 6]]].
+Proof. eexists. vm_compute. split; reflexivity. Qed.
